@@ -374,7 +374,7 @@ class SourceHandler:
         False
             The state machine is in the IDLE state or there is a transaction ID missmatch.
         """
-        if self.states.step == CfdpState.IDLE:
+        if self.states.state == CfdpState.IDLE:
             return False
         if self.states.packets_ready:
             raise UnretrievedPdusToBeSent
